@@ -530,8 +530,10 @@ def oracle(ctx, impl, wb, ops, label, iobs):
     q = max(sum(abs(x) for x in row) for row in A0)
     desc = wb.describe()
     hist = []
+    before = None       # the cells as the previous operation left them
     for o, ob in zip(ops, iobs):
         hist.append([o[0], addr(o[1])] + [x for x in o[2:]])
+        prev_cells, before = before, (ob['state']['cells'] if ob['kind'] != 'raise' else before)
         if ob['kind'] == 'raise':
             if o[0] == 'eval' or ob['exc'] != 'AssertionError':
                 ctx.violation(dict(call=o[0], args=[desc, list(hist)], label=label),
@@ -547,6 +549,7 @@ def oracle(ctx, impl, wb, ops, label, iobs):
         fcone = {c for c in cone if wb.cells[c]['formula']}
         case = dict(call='evaluate', args=[desc, list(hist)], label=label,
                     fresh_cells=bool(fcone - seen_cone), has_range=bool(wb.cone_ranges(t)), kind=wb.kind)
+        settled = cone <= seen_cone       # every cell of the cone was built by an earlier evaluate
         seen_cone |= cone
         p = ob['passes']
         if not (1 <= p <= it):
@@ -574,6 +577,20 @@ def oracle(ctx, impl, wb, ops, label, iobs):
                                       f"q/(1-q)*tol = {bound} from the fixed point {xs[c]}",
                                       impl=cells[c][1], expected=xs[c])
                         break
+        # geometric decay (C06_decay / C06_exhausted, on the implementation): a contracting system of cell
+        # formulas whose cone is already built ends, after p passes, within q^p of its distance before the call
+        if (wb.kind == 'cyclic' and q < 1 and settled and prev_cells is not None and not case['has_range']
+                and wb.cells[t]['formula'] and exact([ob], wb.scale)):
+            A, b = wb.matrix(values)
+            xs = solve(A, b)
+            if xs is not None and all(isinstance(prev_cells[c][1], Fr) and isinstance(cells[c][1], Fr)
+                                      for c in fcone):
+                e0 = max(abs(prev_cells[c][1] - xs[c]) for c in fcone)
+                e1 = max(abs(cells[c][1] - xs[c]) for c in fcone)
+                ctx.histogram['decay-checked'] = ctx.histogram.get('decay-checked', 0) + 1
+                if e1 > q ** p * e0:
+                    ctx.violation(case, f"after {p} passes the cone of {addr(t)} is {e1} from the fixed point, "
+                                  f"more than q^{p} * {e0} (q = {q})", impl=e1, expected=f"<= {q ** p * e0}")
         if wb.kind == 'acyclic':
             want = as_q(impl.plain_value(wb, values, t))
             if ob['result'] != want:
